@@ -1,12 +1,127 @@
 import GrinVerif.Drv.Common
-/-! Driver glue for the `seg` domain (line protocol handler). -/
+import GrinVerif.Model.Seg
+/-! Driver glue for the `seg` domain (property C16): the model of `segment.rs` run with the real
+hash shapes (BLAKE2b in the driver) on the views / segments / bitmaps the harness prints.
+
+Lines:
+* `seg new`, `seg view <size> [pos:data,…] [pos:hash,…] [pos:hash,…]` (the `get_data_from_file`,
+  `get_from_file`, `get_hash` answers of the `ReadonlyPMMR` being served);
+* `seg from <height> <idx> <prunable> => <segment> | err:… | panic`;
+* `seg range <height> <idx> <size> => first last`;
+* `seg root|fup <size> <bitmap> <segment> => …`;
+* `seg validate <size> <bitmap> <root> <segment> => ok | err:… | panic`;
+* `seg validatewith <size> <bitmap> <root> <hash_last_pos> <other> <left> <segment> => …`
+where `<segment>` = `height idx hash_pos hashes leaf_pos leaf_data proof` and `<bitmap>` is
+`none` or a list of leaf indices. All comparisons are model-vs-implementation (`DIFF`); the
+property's oracle is evaluated by the harness (`#ORACLE-FAIL`). -/
 namespace GV.Drv.SegD
-open GV GV.Drv
+open GV GV.Pmmr GV.Seg GV.Drv
+
+/-- the real hash shapes: `(idx, elem).hash()` and `(idx, (l, r)).hash()` -/
+def realHF : HashFn Bytes Bytes where
+  leaf := fun i e => h256 (beBytes 8 i ++ e)
+  node := fun i l r => h256 (beBytes 8 i ++ l ++ r)
 
 structure St where
-  dummy : Unit := ()
+  size : Nat := 0
+  data : Array (Option Bytes) := #[]
+  fromFile : Array (Option Bytes) := #[]
+  hash : Array (Option Bytes) := #[]
 
-def handle (st : St) (_args : List String) (_impl : String) : St × Verdict :=
-  (st, .unknown)
+def St.view (st : St) : View Bytes Bytes where
+  size := st.size
+  dataFromFile := fun p => (st.data.getD p none)
+  fromFile := fun p => (st.fromFile.getD p none)
+  hash := fun p => (st.hash.getD p none)
+
+/-- `[pos:hex,pos:hex]` into an array indexed by position -/
+def parsePosHex (n : Nat) (s : String) : Option (Array (Option Bytes)) :=
+  let inner := (s.drop 1).dropEnd 1 |>.toString
+  if inner.isEmpty then some (Array.replicate n none) else
+  (inner.splitOn ",").foldlM (init := Array.replicate n none) fun acc t =>
+    match t.splitOn ":" with
+    | [p, h] => match p.toNat?, parseHex h with
+      | some p, some b => some (acc.setIfInBounds p (some b))
+      | _, _ => none
+    | _ => none
+
+def showErr : SegErr → String
+  | .missingLeaf p => s!"err:missingleaf:{p}"
+  | .missingHash p => s!"err:missinghash:{p}"
+  | .nonExistent => "err:nonexistent"
+  | .mismatch => "err:mismatch"
+
+def showRes {β : Type} (f : β → String) : Res β → String
+  | .ok v => f v
+  | .err e => showErr e
+  | .panic => "panic"
+
+def showSeg (s : Segment Bytes Bytes) : String :=
+  s!"{s.id.height} {s.id.idx} {showNatList s.hashPos} {showHexList s.hashes} {showNatList s.leafPos} {showHexList s.leafData} {showHexList s.proof}"
+
+def parseSeg : List String → Option (Segment Bytes Bytes)
+  | [h, idx, hp, hs, lp, ld, pr] =>
+    match nat? h, nat? idx, parseNatList hp, parseHexList hs, parseNatList lp, parseHexList ld, parseHexList pr with
+    | some h, some idx, some hp, some hs, some lp, some ld, some pr =>
+      some { id := { height := h, idx := idx }, hashPos := hp, hashes := hs, leafPos := lp,
+             leafData := ld, proof := pr }
+    | _, _, _, _, _, _, _ => none
+  | _ => none
+
+/-- `none` or a list of leaf indices -/
+def parseBm (s : String) : Option (Option (Nat → Bool)) :=
+  if s = "none" then some none else
+  match parseNatList s with
+  | none => none
+  | some l =>
+    let m := l.foldl max 0
+    let bits := l.foldl (fun (a : Array Bool) i => a.setIfInBounds i true) (Array.replicate (m + 1) false)
+    some (some fun i => bits.getD i false)
+
+def handle (st : St) (args : List String) (impl : String) : St × Verdict :=
+  match args with
+  | ["new"] => ({}, .ok)
+  | ["view", size, d, ff, hs] =>
+    match nat? size with
+    | some size =>
+      match parsePosHex (size + 2) d, parsePosHex (size + 2) ff, parsePosHex (size + 2) hs with
+      | some d, some ff, some hs => ({ size := size, data := d, fromFile := ff, hash := hs }, .ok)
+      | _, _, _ => (st, .unknown)
+    | none => (st, .unknown)
+  | ["from", h, idx, pr] =>
+    match nat? h, nat? idx, nat? pr with
+    | some h, some idx, some pr =>
+      (st, cmpModel (showRes showSeg (fromPmmr realHF st.view { height := h, idx := idx } (pr != 0))) impl)
+    | _, _, _ => (st, .unknown)
+  | ["range", h, idx, size] =>
+    match nat? h, nat? idx, nat? size with
+    | some h, some idx, some size =>
+      let r := Ident.posRange { height := h, idx := idx } size
+      (st, cmpModel s!"{r.1} {r.2}" impl)
+    | _, _, _ => (st, .unknown)
+  | "root" :: size :: bm :: seg =>
+    match nat? size, parseBm bm, parseSeg seg with
+    | some size, some bm, some s =>
+      let show' : Option Bytes → String := fun o => match o with
+        | some h => toHex h
+        | none => "none"
+      (st, cmpModel (showRes show' (s.root realHF size bm)) impl)
+    | _, _, _ => (st, .unknown)
+  | "fup" :: size :: bm :: seg =>
+    match nat? size, parseBm bm, parseSeg seg with
+    | some size, some bm, some s =>
+      (st, cmpModel (showRes (fun (x : Bytes × Nat) => s!"{toHex x.1} {x.2}") (s.firstUnprunedParent realHF size bm)) impl)
+    | _, _, _ => (st, .unknown)
+  | "validate" :: size :: bm :: root :: seg =>
+    match nat? size, parseBm bm, parseHex root, parseSeg seg with
+    | some size, some bm, some root, some s =>
+      (st, cmpModel (showRes (fun _ => "ok") (s.validate realHF size bm root)) impl)
+    | _, _, _, _ => (st, .unknown)
+  | "validatewith" :: size :: bm :: root :: hlp :: other :: left :: seg =>
+    match nat? size, parseBm bm, parseHex root, nat? hlp, parseHex other, nat? left, parseSeg seg with
+    | some size, some bm, some root, some hlp, some other, some left, some s =>
+      (st, cmpModel (showRes (fun _ => "ok") (s.validateWith realHF size bm root hlp other (left != 0))) impl)
+    | _, _, _, _, _, _, _ => (st, .unknown)
+  | _ => (st, .unknown)
 
 end GV.Drv.SegD
